@@ -482,6 +482,11 @@ func (trans *FillTransform) computeGroup(c Chunk, tagIdxAt, tagStartIdx, tagEndI
 		return num
 	}
 	fillChunkNum := getFillChunkNumFunc(trans.fillReadAts[tagIdxAt])
+	if !trans.opt.Ascending && trans.fillReadAts[tagIdxAt] > 1 {
+		// the first part of a descending group holds the newest window only (see below), every
+		// other part ChunkSize windows: one part for the newest window, the rest for the others
+		fillChunkNum = getFillChunkNumFunc(trans.fillReadAts[tagIdxAt]-1) + 1
+	}
 
 	for j := 0; j < fillChunkNum; j++ {
 		if trans.opt.Ascending {
@@ -504,6 +509,9 @@ func (trans *FillTransform) computeGroup(c Chunk, tagIdxAt, tagStartIdx, tagEndI
 		}
 
 		if start == -1 || end == -1 || start > end {
+			if !trans.opt.Ascending && startTime < trans.endTime {
+				startTime = trans.endTime // the last part may reach below the oldest window
+			}
 			trans.tmpChunk.AppendTime(startTime)
 			trans.tmpChunk.AppendIntervalIndex(trans.tmpChunk.NumberOfRows() - 1)
 			for m := 0; m < c.NumberOfCols(); m++ {
